@@ -665,6 +665,12 @@ class Executor:
         if op == "BitOr" and const_value(y) == 1:
             # x | 1
             return mk_int("(+ %s (- 1 (mod %s 2)))" % (x, x), bits, sg)
+        if op == "BitXor" and const_value(y) == 1:
+            # x ^ 1: the low bit flipped
+            return mk_int("(ite (= (mod %s 2) 0) (+ %s 1) (- %s 1))" % (x, x, x), bits, sg)
+        if op == "BitAnd" and const_value(y) is not None and (const_value(y) + 1) & const_value(y) == 0:
+            # x & (2^k - 1)
+            return mk_int("(mod %s %s)" % (x, lit(const_value(y) + 1)), bits, sg)
         raise MirError("unsupported binop " + op)
 
     # ---- statements / terminators ---------------------------------------------------------------
@@ -831,7 +837,7 @@ def normalise_callee(c):
     return c.strip()
 
 
-BINOPS = {"Add", "Sub", "Mul", "Div", "Rem", "Shr", "Shl", "Lt", "Le", "Gt", "Ge", "Eq", "Ne", "BitAnd", "BitOr",
+BINOPS = {"Add", "Sub", "Mul", "Div", "Rem", "Shr", "Shl", "Lt", "Le", "Gt", "Ge", "Eq", "Ne", "BitAnd", "BitOr", "BitXor",
           "AddWithOverflow", "SubWithOverflow", "MulWithOverflow"}
 
 
